@@ -694,6 +694,109 @@ def copy_table(t, label):
     return rows
 
 
+ARRAY_ATTRS = {'g', 'gs', 'ps', 'cs'}
+SCALAR_ATTRS = {'p', 'r', 'c', 'N', 'n'}
+
+
+def ctor_params(tree, cls):
+    """formal parameters that positional / keyword actuals of cls(...) bind to, following *args/**kwargs to the first base class"""
+    c = get_def(tree, cls)
+    init = None
+    for m in c.body:
+        if isinstance(m, ast.FunctionDef) and m.name == '__init__':
+            init = m
+    if init is None:
+        base = ast.unparse(c.bases[0]) if c.bases else None
+        return ctor_params(tree, base) if base and base != 'object' else ([], set())
+    pos = [a.arg for a in init.args.args[1:]]
+    names = set(pos)
+    if init.args.vararg is not None or init.args.kwarg is not None:
+        base = ast.unparse(c.bases[0]) if c.bases else None
+        if base and base != 'object':
+            bp, bn = ctor_params(tree, base)
+            if init.args.vararg is not None and not pos:
+                pos = bp
+            if init.args.kwarg is not None:
+                names |= bn
+            names |= set(pos)
+    return pos, names
+
+
+def classify_actual(node):
+    """-> (attr, how) for an actual argument expression taken from self"""
+    u = ast.unparse(node)
+    if isinstance(node, ast.Call) and isinstance(node.func, ast.Attribute) and node.func.attr in ('copy', 'clone') and not node.args:
+        inner = ast.unparse(node.func.value)
+        if inner.startswith('self.'):
+            return inner[5:], 'fresh'
+    if u.startswith('self.') and u[5:].isidentifier():
+        a = u[5:]
+        return a, ('scalar' if a in SCALAR_ATTRS else 'shared')
+    raise TErr('copy(): unrecognised actual ' + u)
+
+
+def copy_rows_expr(tree, cls, expr):
+    """rows (attr, how, bound_to) for a `return Ctor(args).set_x(y)...` expression"""
+    rows = []
+    node = expr
+    setters = []
+    while isinstance(node, ast.Call) and isinstance(node.func, ast.Attribute) and node.func.attr.startswith('set_'):
+        if len(node.args) != 1:
+            raise TErr('setter arity')
+        setters.append((node.func.attr[4:], node.args[0]))
+        node = node.func.value
+    if not (isinstance(node, ast.Call) and isinstance(node.func, ast.Name)):
+        raise TErr('copy(): not a constructor call: ' + ast.unparse(expr))
+    pos, names = ctor_params(tree, node.func.id)
+    for i, a in enumerate(node.args):
+        attr, how = classify_actual(a)
+        bound = pos[i] if i < len(pos) else 'UNBOUND'
+        rows.append((attr, how, bound))
+    for k in node.keywords:
+        attr, how = classify_actual(k.value)
+        rows.append((attr, how, k.arg if k.arg in names else 'UNBOUND'))
+    for target, a in setters:
+        attr, how = classify_actual(a)
+        rows.append((attr, how, target))
+    return node.func.id, rows
+
+
+def item_copy_tables(trees):
+    """copy() of the value classes: for every attribute how it is passed (fresh / shared / scalar) and which constructor parameter it binds to"""
+    out = []
+    for label, tree, classes in trees:
+        for cls in classes:
+            fn = get_def(tree, cls + '.copy')
+            if not (len(fn.body) == 1 and isinstance(fn.body[0], ast.Return)):
+                raise TErr('%s.copy: expected a single return' % cls)
+            ctor, rows = copy_rows_expr(tree, cls, fn.body[0].value)
+            if ctor != cls:
+                raise TErr('%s.copy constructs a %s' % (cls, ctor))
+            for attr, how, bound in rows:
+                out.append('  ("%s", "%s", "%s", C%s, "%s")' % (label, cls, attr, how, bound))
+    return ['Definition copy_table : list (string * string * string * copy_how * string) :=\n  [' + ';\n   '.join(x.strip() for x in out) + '].']
+
+
+def item_copy_np(t):
+    raise TErr('handled by item_copy_all')
+
+
+def gate_copy_rows(tree, label, cls):
+    """circuit classes: statements `new.attr = self.attr.copy()` (fresh) / `= self.attr` (shared)"""
+    fn = get_def(tree, cls + '.copy')
+    rows = []
+    for s in ast.walk(fn):
+        if isinstance(s, ast.Assign) and len(s.targets) == 1 and isinstance(s.targets[0], ast.Attribute) and isinstance(s.targets[0].value, ast.Name):
+            tgt = s.targets[0].attr
+            v = s.value
+            u = ast.unparse(v)
+            if isinstance(v, ast.Call) and isinstance(v.func, ast.Attribute) and v.func.attr in ('copy', 'clone') and ast.unparse(v.func.value) == 'self.' + tgt:
+                rows.append((tgt, 'fresh', tgt))
+            elif u == 'self.' + tgt:
+                rows.append((tgt, 'shared', tgt))
+    return ['  ("%s", "%s", "%s", C%s, "%s")' % (label, cls, a, h, b) for a, h, b in rows]
+
+
 ITEMS = [
     # (name, file, function, target .v)
     ('np_acq', 'pyclifford/utils.py', item_np_acq, 'Kernels'),
@@ -728,8 +831,40 @@ ITEMS = [
     ('repr_tables', 'pyclifford/paulialg.py', item_repr_tables, 'Tables'),
 ]
 
+def emit_copy_tables(repo):
+    """separate pass: needs several files"""
+    lines, status = [], 'translated'
+    try:
+        tp = ast.parse(open(os.path.join(repo, 'pyclifford/paulialg.py')).read())
+        ts = ast.parse(open(os.path.join(repo, 'pyclifford/stabilizer.py')).read())
+        tc = ast.parse(open(os.path.join(repo, 'pyclifford/circuit.py')).read())
+        qp = ast.parse(open(os.path.join(repo, 'torchclifford/paulialg.py')).read())
+        qs = ast.parse(open(os.path.join(repo, 'torchclifford/stabilizer.py')).read())
+        # stabilizer classes derive from paulialg classes: merge the class definitions for parameter resolution
+        merged_np = ast.Module(body=tp.body + ts.body, type_ignores=[])
+        merged_t = ast.Module(body=qp.body + qs.body, type_ignores=[])
+        rows = []
+        for label, tree, classes in (('np', merged_np, ['Pauli', 'PauliList', 'PauliMonomial', 'PauliPolynomial', 'CliffordMap', 'StabilizerState']),
+                                     ('torch', merged_t, ['Pauli', 'PauliList', 'PauliPolynomial', 'CliffordMap', 'StabilizerState'])):
+            for cls in classes:
+                fn = get_def(tree, cls + '.copy')
+                if not (len(fn.body) == 1 and isinstance(fn.body[0], ast.Return)):
+                    raise TErr('%s.copy: expected a single return' % cls)
+                ctor, rr = copy_rows_expr(tree, cls, fn.body[0].value)
+                if ctor != cls:
+                    raise TErr('%s.copy constructs a %s' % (cls, ctor))
+                rows += ['  ("%s", "%s", "%s", C%s, "%s")' % (label, cls, a, h, b) for a, h, b in rr]
+        for cls in ('CliffordGate', 'CliffordLayer', 'CliffordCircuit'):
+            rows += gate_copy_rows(tc, 'np', cls)
+        lines = ['Definition copy_table : list (string * string * string * copy_how * string) :=\n  [' + ';\n   '.join(x.strip() for x in rows) + '].']
+    except (TErr, SyntaxError, OSError, IndexError, AttributeError, KeyError, ValueError) as e:
+        status = 'frozen:%s: %s' % (type(e).__name__, e)
+    return lines, status
+
+
 HEADER = {
     'Kernels': '(* GENERATED by tools/translate.py from /repo -- do not edit *)\nFrom Coq Require Import ZArith List.\nImport ListNotations.\nOpen Scope Z_scope.\nDefinition m1pow (e : Z) : Z := if Z.even e then 1 else (-1).\n',
+    'Copies': '(* GENERATED by tools/translate.py from /repo -- do not edit *)\nFrom Coq Require Import String List.\nImport ListNotations.\nOpen Scope string_scope.\nInductive copy_how := Cfresh | Cshared | Cscalar.\n',
     'Tables': '(* GENERATED by tools/translate.py from /repo -- do not edit *)\nFrom Coq Require Import ZArith List.\nImport ListNotations.\nOpen Scope Z_scope.\nInductive parse_effect := EffSkip | EffX | EffY | EffZ | EffSetP (p : Z) | EffAddP (d : Z).\n',
 }
 
@@ -746,7 +881,7 @@ def main():
     frozen = json.load(open(frozen_path)) if os.path.exists(frozen_path) else {}
     trees, hashes = {}, {}
     status = {}
-    texts = {'Kernels': [], 'Tables': []}
+    texts = {'Kernels': [], 'Tables': [], 'Copies': []}
     for name, rel, fn, target in ITEMS:
         path = os.path.join(a.repo, rel)
         try:
@@ -768,6 +903,17 @@ def main():
         texts[target].extend(lines)
         if a.update_frozen and st == 'translated':
             frozen[name] = lines
+    cl, cst = emit_copy_tables(a.repo)
+    if cst != 'translated':
+        if 'copy_tables' in frozen:
+            cl = frozen['copy_tables']
+        else:
+            print('translate: copy tables failed and no frozen text: ' + cst, file=sys.stderr)
+            sys.exit(2)
+    elif a.update_frozen:
+        frozen['copy_tables'] = cl
+    status['copy_tables'] = {'file': 'pyclifford/*.py, torchclifford/*.py', 'status': cst, 'sha': None, 'defs': cl}
+    texts['Copies'] = ['(* item copy_tables [%s] *)' % cst.split(':')[0]] + cl
     for target, ls in texts.items():
         body = HEADER[target] + '\n'.join(ls) + '\n'
         p = os.path.join(out, target + '.v')
